@@ -1,20 +1,32 @@
 #!/bin/sh
-# Offline setup after a fresh restore: build the Lean project (all theorems + drivers) and
-# warm the Go build cache for the harness binaries. Checks rebuild what they need anyway.
-set -e
+# Offline setup after a fresh restore: build the Lean project (all property theorems + model
+# drivers) and warm the Go build cache for the harness binaries. Every check rebuilds what it
+# needs from /repo's working tree anyway; a failure here is reported by the affected check.
 cd "$(dirname "$0")"
 export GOFLAGS=-mod=mod GOPROXY=off GOSUMDB=off GOTOOLCHAIN=local
 mkdir -p bin evidence replay .work
-(cd lean && lake build 2>&1 | tail -5)
+TARGETS=$(python3 - <<'P'
+import json,glob
+t=[]
+for f in sorted(glob.glob('props/C*.json')):
+    c=json.load(open(f))
+    t+=c.get('lean_targets',[])+[c.get('driver','drv'+c['id'])]
+print(' '.join(dict.fromkeys(t)))
+P
+)
+./lk build $TARGETS 2>&1 | tail -15
 ./harness/mkmod.sh $PWD/.work/mod-setup/harness.mod
 MOD=-modfile=$PWD/.work/mod-setup/harness.mod
 cd harness
 for d in c[0-9][0-9]; do
   [ -f "$d/main.go" ] || continue
-  if grep -q "\"race\": true" ../props/$(echo $d | tr c C).json 2>/dev/null; then
+  ID=$(echo $d | tr c C)
+  [ -f ../props/$ID.json ] || continue
+  if grep -q '"race": *true' ../props/$ID.json 2>/dev/null; then
     go build $MOD -tags verif -race -o ../bin/$d-race ./$d || echo "setup: harness $d failed to build"
   else
     go build $MOD -tags verif -o ../bin/$d ./$d || echo "setup: harness $d failed to build"
   fi
 done
 echo setup done
+exit 0
